@@ -10,7 +10,8 @@ EXTENDS WireFamilies
 SetId(P, j) == P.sets[j].pkg \o "." \o P.sets[j].name
 RECURSIVE Includes(_, _)
 Includes(P, items) ==
-  UNION {{SetId(P, items[k].i)} \cup Includes(P, P.sets[items[k].i].items) : k \in {x \in DOMAIN items : items[x].k = "set"}}
+  UNION {(IF InlineSet(P.sets[items[k].i]) THEN {} ELSE {SetId(P, items[k].i)}) \cup Includes(P, P.sets[items[k].i].items)
+           : k \in {x \in DOMAIN items : items[x].k = "set"}}
 
 \* types outside the set that t transitively needs
 ExtInputs(P, items, t) ==
@@ -23,8 +24,8 @@ ShowGroups(P, items) ==
 SetValid(P, j) == LevelReasons(P, P.sets[j].items, <<>>) = {}
 ShowExpect(P) ==
   [sets |-> {[id |-> SetId(P, j), includes |-> Includes(P, P.sets[j].items), groups |-> ShowGroups(P, P.sets[j].items)]
-               : j \in {x \in DOMAIN P.sets : SetValid(P, x)}},
-   invalid |-> {SetId(P, j) : j \in {x \in DOMAIN P.sets : ~SetValid(P, x)}},
+               : j \in {x \in DOMAIN P.sets : SetValid(P, x) /\ ~InlineSet(P.sets[x])}},
+   invalid |-> {SetId(P, j) : j \in {x \in DOMAIN P.sets : ~SetValid(P, x) /\ ~InlineSet(P.sets[x])}},
    injectors |-> {P.injs[i].name : i \in {x \in DOMAIN P.injs : Verdict(P, P.injs[x]) = "yes"}},
    rejected  |-> {P.injs[i].name : i \in {x \in DOMAIN P.injs : Verdict(P, P.injs[x]) = "no"}},
    free      |-> {P.injs[i].name : i \in {x \in DOMAIN P.injs : Verdict(P, P.injs[x]) = "free"}}]
